@@ -656,7 +656,7 @@ theorem seg_steps (hs : StringIsCtor B env) (a : Val) (ha : NotIdent a) (len pc 
   | error e => obtain ⟨ab, l⟩ := e; rfl
   | ok r => obtain ⟨vs, l⟩ := r; rfl
 
-theorem loop_step' (code : List Instr) (fuel pc : Nat) (s : St) (i : Instr) (h : code[pc]? = some i) :
+theorem loop_step_at (code : List Instr) (fuel pc : Nat) (s : St) (i : Instr) (h : code[pc]? = some i) :
     loop B rec recTop env code (fuel + 1) pc s =
       match step B rec recTop env code.length i (pc + 1) s with
       | .fail a l => .fail a l
@@ -704,7 +704,7 @@ theorem run_segs (hB : B.ctor = constructType X now) (hs : StringIsCtor B env)
     obtain ⟨f, rfl⟩ : ∃ f, fuel = f + 1 := ⟨fuel - 1, by omega⟩
     simp only [List.length_nil, Nat.add_zero, List.flatMap_nil, List.nil_append]
     have hc : (pre ++ [Instr.fmt done.length])[pre.length]? = some (.fmt done.length) := by simp
-    rw [loop_step' B rec recTop env _ f pre.length _ _ hc]
+    rw [loop_step_at B rec recTop env _ f pre.length _ _ hc]
     simp only [step, popN_vals rec env done hdone st log, segVals, List.append_nil, fmtVal]
     have hl : pre.length + 1 = (pre ++ [Instr.fmt done.length]).length := by simp
     cases concatStrs done.reverse with
@@ -722,11 +722,11 @@ theorem run_segs (hB : B.ctor = constructType X now) (hs : StringIsCtor B env)
       simp [segCode]
     have c3 : (pre ++ ((a :: rest).flatMap segCode ++ [Instr.fmt (done.length + (a :: rest).length)]))[pre.length + 2]? = some (.call 1) := by
       simp [segCode]
-    rw [loop_step' B rec recTop env _ (f + 2) pre.length _ _ c1, s1]
+    rw [loop_step_at B rec recTop env _ (f + 2) pre.length _ _ c1, s1]
     simp only []
-    rw [loop_step' B rec recTop env _ (f + 1) (pre.length + 1) _ _ c2, s2]
+    rw [loop_step_at B rec recTop env _ (f + 1) (pre.length + 1) _ _ c2, s2]
     simp only []
-    rw [loop_step' B rec recTop env _ f (pre.length + 2) _ _ c3, s3]
+    rw [loop_step_at B rec recTop env _ f (pre.length + 2) _ _ c3, s3]
     simp only []
     have hdone' : ∀ v ∈ (segVal B rec env a log).1 :: done, NotIdent v := by
       intro v hv
